@@ -12,7 +12,9 @@ import props.common  # noqa: F401  (silences warnings)
 
 RULE = (
     "Every vector over the magnitude alphabet {-2, 0, 1, 3, 1e6, 1e-6} within the length bound that has at least two "
-    "distinct values (poly: at least degree+1 distinct values) x every configuration (scale / standardize x center x "
+    "distinct values (poly: at least degree+1 distinct values), and every vector x = o + h*d with d over a small integer "
+    "grid for a list of (offset, step) pairs (large common offset with small spread, kappa up to 1e9; uniformly rescaled "
+    "data, 1e-8..1e8), x every configuration (scale / standardize x center x "
     "scale x ddof in {0,1}, their defaults, center; poly degree 1..3 x a null inserted at every position or none; the "
     "six preloaded element-wise functions on every vector over {1e-3, .5, 1, 2, 10}) x input container, by direct call "
     "with an explicit _state dict and through model_matrix + model_spec.get_model_matrix; after fitting, every follow-up "
@@ -24,9 +26,11 @@ ASSUMPTIONS = [
     "the continuum of real vectors is represented by a 6-value alphabet spanning 12 orders of magnitude, both signs and "
     "zero; statistics are symmetric polynomial functions of the data, so lengths <= 5 exercise every code path (the code "
     "has no length-dependent branch beyond N - ddof)",
-    "tolerances: 1e-9 scaled by the conditioning of the problem - kappa = max|x|/sd(x) for standardisation (<= 3.75 on this "
-    "alphabet) and, for poly, the growth factor K_k = prod_j max(1, spread * ||p_(j-1)|| / ||p_j||) of the documented "
-    "three-term recurrence computed on the exact reference (tolerance max(1e-9, 64 u K_k); measured error <= 5 u K_k); "
+    "tolerances: 1e-9 scaled by the conditioning of the problem - for standardisation the rounding error of the mean, "
+    "a common shift <= N u max|x| of the centred values (16 N u kappa after division, kappa = max|x|/sd(x)); the sd of the "
+    "result is insensitive to that shift (tolerance max(1e-9, 4 (N u kappa)^2)); for poly, the growth factor K_k = prod_j max(1, spread * ||p_(j-1)|| / ||p_j||) of the documented "
+    "three-term recurrence computed on the exact reference, times (1 + |mean|/spread) because the recurrence coefficients "
+    "are formed from the raw x (tolerance max(1e-9, 64 u K_k (1 + |mean|/spread)); measured error <= 5 u K_k); "
     "poly cases whose tolerance would exceed 1e-3 (float64 cannot separate 0 from 1e-6 next to 1e6) are counted as "
     "ill-conditioned and only checked for shape and null propagation",
     "scale(center=False, scale=True): the documentation says 'standard deviation 1' but, like R, the code divides by the "
